@@ -3,16 +3,17 @@ PROPERTIES = ['C06', 'C02']
 BOUNDS = {
     'quick': 'pointer iterators with the default comparator: first range length LN = 0..4, second range / needle length LM = 0..3, every combination (merge/set_*: LN+LM <= 5, find_end: LN+LM <= 6); '
              'greater and key-only (low 16 bits, upper bits are identity tags) comparators / equivalences at LN in {1,3,4}, LM in {1,3}; forward-only iterator wrapper at LN in {0,2,4}, LM in {0,2}; '
-             'bidirectional wrapper for the algorithms that need it at LN in {0,2,4}; single-pass input + write-only output wrappers at LN in {0,3}, LM in {0,2}. '
+             'bidirectional wrapper for the algorithms that need it at LN in {0,2,4}; single-pass input + write-only output wrappers at LN in {0,3}, LM in {0,2}; move-observable element type (moved-from source becomes INT_MIN; ELEM=2) for move, move_backward (also overlapping), shift_left, shift_right, rotate, remove, remove_if, unique, swap_ranges, reverse at LN in {0,2,3} with pointers. '
              'Symbolic: every element (32 bit), searched / replaced values, predicate parameters (mask, pivot), generator seed/step, counts (copy_n, fill_n, generate_n <= LN incl. negative; search_n any int), '
              'shift amounts (any non-negative 64-bit value; negative for the documented no-op of shift_right), rotate / rotate_copy split point 0..LN, iter_swap positions',
     'thorough': 'as quick with LN = 0..6, LM = 0..4 for pointers (merge/set_*: LN+LM <= 6, find_end: LN+LM <= 7, is_permutation / equal_range / search_n: LN <= 5); comparators and wrappers at LN in {0,1,3,5}, LM in {0,1,3}; '
-                'key-only comparator over bidirectional wrapper LN <= 4; struct element type (key, tag) with key-only operators over pointers (LN <= 5) and forward wrapper (LN <= 4)',
+                'key-only comparator over bidirectional wrapper LN <= 4; struct element type (key, tag) with key-only operators over pointers (LN <= 5) and forward wrapper (LN <= 4); move-observable element type for the moving algorithms at LN = 0..5 (pointers) and {0,2,4} (bidirectional wrapper)',
 }
 ASSUMPTIONS = [
     'alg_std: oracle = libstdc++ 12 algorithm of the same name on a copy, compiled through the same pipeline; for search, find_end, is_permutation, merge, set_* the oracle is called through a forward/bidirectional iterator view (same specification, cheaper encoding than the unrolled random-access implementation); rotate is compared with std::rotate_copy',
     'alg_std: documented preconditions assumed: sorted inputs for includes/merge/set_*; range partitioned w.r.t. the value for lower_bound/upper_bound/equal_range/binary_search; partitioned range for partition_point; clamp: !(hi < lo); for_each_n: 0 <= n <= length; copy_n/fill_n/generate_n: n <= length of the buffers; shift_left/shift_right: n >= 0 ([alg.shift]); 3-iterator overloads get a second range of the same length',
     'alg_std: remove/remove_if/unique compare [first, result) only, shift_left [first, result), shift_right [result, last) (the rest is unspecified by the standard); destinations are pre-filled with symbolic values and compared as a whole (nothing else written)',
+    'alg_std: ELEM=2 is struct Mv {int v;} whose move constructor/assignment copy v and then set the source to INT_MIN (self-move-assignment destroys the value), copies plain; used identically by the etl kernel and the libstdc++ oracle; elements the standard leaves valid-but-unspecified (moved-from sources, tails of remove/unique/shift) are not compared',
     'alg_std: unary predicates are the family (bits(x) & mask) < pivot with symbolic mask and pivot; comparators: operator< (default overload), greater, key-only; arbitrary user predicates are outside the claim',
     'alg_std: reverse_iterator, back_insert_iterator (over a minimal push_back sink), next/distance and swap are exercised through find/copy/copy_if/merge with pointers only',
     'alg_std: etl::search_n, inplace_merge, stable_partition do not instantiate for non-pointer / non-random-access iterators and etl::unique_copy not for a write-only output iterator; those combinations are compile-time restrictions and are not part of the run-time claim',
@@ -28,7 +29,7 @@ E = {
  'equal3': (1, INP, 'E'), 'equal4': (2, INP, 'E'), 'equal4_symlen': (2, INP, 'E'), 'is_permutation4_symlen': (2, FWD, ''), 'mismatch3': (1, INP, 'E'), 'mismatch4': (2, INP, 'E'), 'lexicographical_compare': (2, INP, 'C'),
  'search': (2, FWD, 'E'), 'search_searcher': (2, FWD, ''), 'find_end': (2, FWD, 'E'), 'find_first_of': (2, INP, 'E'), 'includes': (2, INP, 'C'),
  'is_permutation3': (1, FWD, ''), 'is_permutation4': (2, FWD, ''),
- 'copy': (1, INP, ''), 'copy_overlap': (1, FWD, ''), 'copy_if': (1, INP, ''), 'copy_n': (1, INP, ''), 'move': (1, INP, ''), 'copy_backward': (1, BIDI, ''), 'copy_backward_overlap': (1, BIDI, ''),
+ 'copy': (1, INP, ''), 'copy_overlap': (1, FWD, ''), 'copy_if': (1, INP, ''), 'copy_n': (1, INP, ''), 'move': (1, INP, ''), 'move_overlap': (1, FWD, ''), 'move_backward_overlap': (1, BIDI, ''), 'copy_backward': (1, BIDI, ''), 'copy_backward_overlap': (1, BIDI, ''),
  'move_backward': (1, BIDI, ''), 'fill': (1, FWD, ''), 'fill_n': (1, INP, ''), 'generate': (1, FWD, ''), 'generate_n': (1, INP, ''), 'transform1': (1, INP, ''), 'transform1_inplace': (1, FWD, ''),
  'transform2': (1, INP, ''), 'replace': (1, FWD, ''), 'replace_if': (1, FWD, ''), 'remove': (1, FWD, ''), 'remove_if': (1, FWD, ''), 'remove_copy': (1, INP, ''), 'remove_copy_if': (1, INP, ''),
  'reverse': (1, BIDI, ''), 'reverse_copy': (1, BIDI, ''), 'rotate': (1, FWD, ''), 'rotate_copy': (1, FWD, ''), 'shift_left': (1, FWD, ''), 'shift_right': (1, BIDI, ''), 'shift_right_neg': (1, BIDI, ''), 'swap_ranges': (1, FWD, ''),
@@ -37,7 +38,8 @@ E = {
  'merge': (2, INP, 'C'), 'set_difference': (2, INP, 'C'), 'set_intersection': (2, INP, 'C'), 'set_symmetric_difference': (2, INP, 'C'), 'set_union': (2, INP, 'C'),
 }
 NONEMPTY = {'iter_swap'}
-BIDI_ONLY = {'copy_backward', 'copy_backward_overlap', 'move_backward', 'reverse', 'reverse_copy', 'shift_right', 'shift_right_neg'}
+MOVING = {'move', 'move_overlap', 'move_backward', 'move_backward_overlap', 'shift_left', 'shift_right', 'rotate', 'remove', 'remove_if', 'unique', 'swap_ranges', 'reverse'}   # run with the move-observable element type (ELEM=2)
+BIDI_ONLY = {'copy_backward', 'move_backward_overlap', 'copy_backward_overlap', 'move_backward', 'reverse', 'reverse_copy', 'shift_right', 'shift_right_neg'}
 MERGE = {'back_insert_merge', 'merge', 'set_difference', 'set_intersection', 'set_symmetric_difference', 'set_union'}
 
 def open_ids():
@@ -93,6 +95,7 @@ def queries(tier, prop='C06'):
             grid(out, (1, 3, 4), (1, 3), 0, cmp, 0, ub)
         grid(out, (0, 2, 4), (0, 2), 1, 0, 0, ub)                              # forward-only iterators
         grid(out, (0, 2, 4), (0, 2), 2, 0, 0, ub, only=BIDI_ONLY)                    # bidirectional iterators: the algorithms that need them
+        grid(out, (0, 2, 3), (0,), 0, 0, 2, ub, only=MOVING)                         # move-observable elements: the algorithms that move
         grid(out, (0, 3), (0, 2), 3, 0, 0, ub)                                    # single-pass input / write-only output iterators
     else:
         nmax, mmax = 6, 4
@@ -105,8 +108,12 @@ def queries(tier, prop='C06'):
         grid(out, (0, 1, 2, 4), (0, 2), 2, 2, 0, ub)
         grid(out, (0, 1, 3, 5), (0, 2, 3), 0, 0, 1, ub)                              # struct element (key, tag), operators look at the key only
         grid(out, (0, 1, 3, 4), (0, 2), 1, 0, 1, ub)
+        grid(out, range(0, 6), (0,), 0, 0, 2, ub, only=MOVING)                        # move-observable elements
+        grid(out, (0, 2, 4), (0,), 2, 0, 2, ub, only=MOVING)
         for q_ in out: q_['budget'] = 600
     out = [q for q in out if allowed(q['entry'][2:], q['cfg']['LN'], q['cfg']['LM'], tier)]
+    if tier == 'quick':   # the overlapping move variants only matter for the move-observable element type; with int they repeat copy_overlap
+        out = [q for q in out if q['entry'] not in ('q_move_overlap', 'q_move_backward_overlap') or q['cfg']['ELEM'] == 2]
     # configurations that lie completely inside an open known-finding region would be vacuous: skipped while the finding is open
     def inside(q):
         c = q['cfg']
